@@ -144,7 +144,7 @@ def ob_complete(n: int, c0: int, c1: int, c2: int, style: int, sib: int) -> Opti
 # ----------------------------------------------------------------------------
 # analyser
 # ----------------------------------------------------------------------------
-LPOOL = ["a", " ", "'", '"', "$", "-", "|", ";", "(", ")", "&", "r"]
+LPOOL = ["a", " ", "'", '"', "$", "-", "|", ";", "(", ")", "&", "r", "\\", "\n"]
 PARSER = [None]
 
 
@@ -168,7 +168,7 @@ def _analyse(line, cursor):
     return None
 
 
-def ob_analyse(n: int, c0: int, c1: int, c2: int, c3: int, cursor: int) -> Optional[str]:
+def ob_analyse(n: int, c0: int, c1: int, c2: int, c3: int, cursor: int, bare: bool) -> Optional[str]:
     if not (0 <= n <= 4 and 0 <= cursor <= n):
         raise Skip()
     cs = [c0, c1, c2, c3]
@@ -179,11 +179,30 @@ def ob_analyse(n: int, c0: int, c1: int, c2: int, c3: int, cursor: int) -> Optio
         elif cs[i] != 0:
             raise Skip()
     line = "".join(_pick(LPOOL, cs[i]) for i in range(n))
-    r = concretely(_analyse, "l " + line, 2 + _pick([0, 1, 2, 3, 4], cursor))
+    if bare:
+        # the symbols are the whole input (the line does not start with a command word)
+        r = concretely(_analyse, line, _pick([0, 1, 2, 3, 4], cursor))
+    else:
+        r = concretely(_analyse, "l " + line, 2 + _pick([0, 1, 2, 3, 4], cursor))
     if r:
         k, rest = r.split(":", 1)
         return viol(k, lambda: rest.strip())
     return None
+
+
+def _region_quote_linecont(args, v):
+    # an opening quote, later a backslash-newline, cursor behind the backslash
+    if not v.startswith("prefix-mismatch"):
+        return False
+    n = args.get("n", 0)
+    cs = [args.get("c0", 0), args.get("c1", 0), args.get("c2", 0), args.get("c3", 0)][:n]
+    cur = args.get("cursor", 0)
+    for q in range(n):
+        if cs[q] in (2, 3):
+            for k in range(q + 1, n - 1):
+                if cs[k] == 12 and cs[k + 1] == 13 and cur >= k + 1:
+                    return True
+    return False
 
 
 TRAIL = ["cat 'draft  ", 'cat "draft  ', "cat r'dr  ", "ls 'a b   ", "ls '''x  ", "cat 'draft' ", "ls a  ", "ls 'a' 'b  "]
@@ -228,13 +247,15 @@ OBLIGATIONS = [
                regions={"C18-raw-string-cannot-express-name": _region_raw, "C18-bang": _region_bang, "C18-leading-tilde": _region_tilde},
                symbolic="symbol index per position, quote style"),
     Obligation("analyse", ob_analyse,
-               bounds="command lines `l ` + up to 3 (quick) / 4 (thorough) symbols over {a, space, ', \", $, -, |, ;, (, ), &, r}, every cursor position: no exception; the "
+               bounds="command lines `l ` + up to 3 (quick) / 4 (thorough) symbols over {a, space, ', \", $, -, |, ;, (, ), &, r, backslash, newline} (also as the whole input, without the `l ` word), every cursor position: no exception; the "
                       "reported prefix/suffix are the text around the cursor",
                pre=[f"0 <= c{k} < {len(LPOOL)}" for k in range(4)] + ["0 <= cursor <= 4"],
                parts={"quick": [dict(n=k) for k in range(0, 3)] + [dict(n=3, c0=c) for c in range(len(LPOOL))],
                       "thorough": [dict(n=k) for k in range(0, 3)] + [dict(n=3, c0=c) for c in range(len(LPOOL))]
                                   + [dict(n=4, c0=c, c1=d) for c in range(len(LPOOL)) for d in range(len(LPOOL))]},
-               timeout={"quick": 240, "thorough": 600}, symbolic="symbol index per position, cursor"),
+               timeout={"quick": 240, "thorough": 600}, regions={"C18-analyser-quote-backslash-newline": _region_quote_linecont},
+               region_parts={"C18-analyser-quote-backslash-newline": lambda p: p.get("n", 0) >= 3},
+               symbolic="symbol index per position, cursor"),
     Obligation("analyse_trailing_blanks", ob_analyse_trailing, bounds=f"{len(TRAIL)} lines ending in blanks after an (un)closed quoted argument, every cursor position",
                pre=["0 <= i < 8", "0 <= cursor <= 14"], timeout={"quick": 120, "thorough": 120}, symbolic="line index, cursor"),
 ]
